@@ -8,11 +8,14 @@ the tables are read (the concrete part is what the Go side replays).
   rl 0 <hex json> | -                                                         (real FixVulns, npm/relax, under a watchdog) → r=ok
   up 0 <hex json> | <requirement blocks>                                     (Update on a whole pom; see handleUp)
   mo 0 <hex json> | <levels> <counts> <pins0> <lres> <nv> <aff> <diffs>     (several packages; see handleMo)
+  cf 0 <entries pkg:word:bare,… (hex, "_" = empty)> | <queried packages (hex),…>       (NewConfigFromStrings; see handleCf)
+      → r=ok cfg=<pkg=level,… sorted> get=<levels.> spec=<levels.> wf=<0|1>
   sg <level> … | <simple> <cur rank|-> <curId|-> <id:rank:diff:mat,…>
       → r=keep|update:<id> okset=<bits over ids> cls=-
 -/
 import Scalibr.Base.Wire
 import Scalibr.Spec.Upgrade
+import Scalibr.Spec.UpgradeConfig
 import Scalibr.Model.OverrideMulti
 open Scalibr Scalibr.Wire Scalibr.Upgrade
 
@@ -184,6 +187,30 @@ def handleUp (tb : List String) : String :=
     | none => "bad-op"
   | _ => "bad-op"
 
+def unhexC (s : String) : Option (List Char) := if s = "_" then some [] else (strOfHex s).map (·.toList)
+def hexC (s : List Char) : String := if s.isEmpty then "_" else hexOfStr (String.ofList s)
+
+/-- `cf`: the entries of the case are rendered to strings (Spec.render) and parsed by the model of `NewConfigFromStrings`;
+`cfg=` is the resulting map, `get=` the level of each queried package (model), `spec=` the intended level (Spec.intended on the
+entries themselves), `wf=` Spec.WFentry on all entries (the hypothesis of C11_config_strings_meaning). -/
+def handleCf (entries : String) (tb : List String) : String :=
+  let es : Option (List Entry) := (listOf entries ",").mapM fun e =>
+    match e.splitOn ":" with
+    | [p, w, b] => do some ⟨← unhexC p, ← unhexC w, b = "1"⟩
+    | _ => none
+  let qs : Option (List (List Char)) := match tb with
+    | [q] => (listOf q ",").mapM unhexC
+    | _ => none
+  match es, qs with
+  | some es, some qs =>
+    let cfg := configFromStrings (es.map render)
+    -- the Go map: one level per key, the most recent assignment
+    let keys := (cfg.map (·.1)).eraseDups
+    let shown := (keys.map fun k => hexC k ++ "=" ++ toString (configGet cfg k)).toArray.qsort (· < ·) |>.toList
+    let wf := es.all fun e => decide (WFentry e)
+    s!"r=ok cfg={joinWith "," shown} get={joinWith "." (qs.map fun q => toString (configGet cfg q))} spec={joinWith "." (qs.map fun q => toString (intended es q))} wf={if wf then "1" else "0"}"
+  | _, _ => "bad-op"
+
 def handle (line : String) : String :=
   match line.splitOn " | " with
   | [conc, tables] =>
@@ -194,6 +221,7 @@ def handle (line : String) : String :=
         let tb := tables.splitOn " "
         if op = "rx" then handleRx level tb else if op = "ov" then handleOv level tb
         else if op = "sg" then handleSg level tb else if op = "mo" then handleMo tb else if op = "up" then handleUp tb
+        else if op = "cf" then handleCf ((conc.splitOn " ").getD 2 "-") tb
         else if op = "rl" then "r=ok"     -- relax end to end: the only claim is termination (the call returns); see C11_terminates_*
         else "bad-op"
       | none => "bad-op"
